@@ -31,7 +31,8 @@ func (v *view) lastSession() (sessSnap, bool) {
 type symbol struct {
 	name   string
 	conn   int
-	close  bool // client closes the connection instead of sending a request
+	close  bool   // client closes the connection instead of sending a request
+	raw    string // "frame" / "response": the client sends something that is not a request
 	method string
 	sid    string // n | w | r
 	track  string
@@ -76,6 +77,8 @@ func alphabet(full, multi bool) []symbol {
 		// connection 1 comes from the same address as connection 0, connection 2 from another one
 		a = append(a,
 			symbol{name: "close0", close: true},
+			symbol{name: "frame0", raw: "frame"},
+			symbol{name: "response0", raw: "response"},
 			on(1, sym("teardown+s", "teardown", "r")),
 			on(1, sym("getparameter+s", "getparameter", "r")),
 			on(1, sym("play+s", "play", "r")),
@@ -102,6 +105,28 @@ func alphabet(full, multi bool) []symbol {
 	return a
 }
 
+// alphabetTCP: the interleaved transport, where the connection's read loop switches with the state.
+func alphabetTCP() []symbol {
+	setup := func(name, sid, track, trs string) symbol {
+		s := sym(name, "setup", sid)
+		s.track, s.trs = track, trs
+		return s
+	}
+	c1 := sym("c1:getparameter+s", "getparameter", "r")
+	c1.conn = 1
+	return []symbol{
+		setup("setup0-tcp", "n", "0", "t.0.1.1.0.0"),
+		sym("announce", "announce", "n"),
+		setup("setup0-tcp-rec", "n", "0", "t.0.2.1.1.0"),
+		sym("play+s", "play", "r"),
+		sym("record+s", "record", "r"),
+		sym("pause+s", "pause", "r"),
+		sym("teardown+s", "teardown", "r"),
+		symbol{name: "frame0", raw: "frame"},
+		c1,
+	}
+}
+
 // alphabetMcast: the multicast transport next to UDP on a server that offers both.
 func alphabetMcast() []symbol {
 	setup := func(name, sid, track, trs string) symbol {
@@ -126,6 +151,9 @@ func alphabetMcast() []symbol {
 func (s symbol) op(v *view) (string, bool) {
 	if s.close {
 		return fmt.Sprintf("sess close %d", s.conn), true
+	}
+	if s.raw != "" {
+		return fmt.Sprintf("sess %s %d", s.raw, s.conn), true
 	}
 	sid := s.sid
 	if sid == "r" {
@@ -230,6 +258,9 @@ func (g *randGen) next(v *view) (string, bool) {
 	}
 	if g.chance(5) {
 		return fmt.Sprintf("sess close %d", openNow[g.rng.IntN(len(openNow))]), true
+	}
+	if g.chance(4) {
+		return fmt.Sprintf("sess %s %d", g.pick("frame", "frame", "response"), openNow[g.rng.IntN(len(openNow))]), true
 	}
 	c := openNow[0]
 	if g.chance(30) {
